@@ -383,7 +383,11 @@ where
 
         self.intf.iv.enable_rf_switch_rx().await?;
 
-        self.set_lora_symbol_num_timeout(num_symbols).await?;
+        // Continuous reception has no symbol timeout: like Semtech's reference driver, leave
+        // RegModemConfig2[1:0] / RegSymbTimeoutLsb alone instead of programming a count of 0.
+        if num_symbols != 0 {
+            self.set_lora_symbol_num_timeout(num_symbols).await?;
+        }
 
         let lna_gain = if self.config.rx_boost {
             LnaGain::G1.boosted_value()
